@@ -303,20 +303,40 @@ func F1LogSets(min, max uint64, hs int) [][]refdb.Log {
 	var out [][]refdb.Log
 	for _, ss := range subsets(len(keys), 3) {
 		k := len(ss)
+		const nv = 11
 		nk := 1
 		for i := 0; i < k; i++ {
-			nk *= 5
+			nk *= nv
 		}
 		for code := 0; code < nk; code++ {
 			c := code
 			var logs []refdb.Log
 			for _, idx := range ss {
-				v := c % 5
-				c /= 5
-				if v == 4 {
+				v := c % nv
+				c /= nv
+				switch {
+				case v == 4:
 					logs = append(logs, mkLog(keys[idx].name, keys[idx].ui, true, "", hs))
-				} else {
+				case v < 4:
 					logs = append(logs, mkLog(keys[idx].name, keys[idx].ui, false, F1Msgs[v], hs))
+				default:
+					// sparse entries: exactly one field set, everything else empty
+					l := refdb.Log{Name: keys[idx].name, UpdateIndex: keys[idx].ui}
+					switch v {
+					case 5:
+						l.Time = 1577123507
+					case 6:
+						l.TZ = -330
+					case 7:
+						l.Who = "n"
+					case 8:
+						l.Email = "e"
+					case 9:
+						l.New = Oid("only-new", hs)
+					case 10:
+						l.Old = Oid("only-old", hs)
+					}
+					logs = append(logs, l)
 				}
 			}
 			out = append(out, logs)
@@ -406,6 +426,21 @@ func F2(cfg Cfg, counts []int, yield func(*Case)) {
 			yield(&Case{Family: "F2", Cfg: cfg, Min: min, Max: max, Logs: logs, Note: note + ",logs"})
 			yield(&Case{Family: "F2", Cfg: cfg, Min: min, Max: max, Refs: refs, Logs: logs, Note: note + ",both"})
 		}
+	}
+}
+
+// ---------------------------------------------------------------- F5: restart-table saturation
+
+// F5 yields one table whose single ref block holds more records than a restart table can
+// address (65535): huge block size, restart interval 1.
+func F5(yield func(*Case)) {
+	for _, n := range []int{65534, 65535, 65536, 66000} {
+		cfg := Cfg{BlockSize: 1 << 22, Restart: 1}
+		var refs []refdb.Ref
+		for i := 0; i < n; i++ {
+			refs = append(refs, refdb.Ref{Name: fmt.Sprintf("%05d", i), Kind: 3, UpdateIndex: 1, Symref: "t"})
+		}
+		yield(&Case{Family: "F5", Cfg: cfg, Min: 1, Max: 1, Refs: refs, Note: fmt.Sprintf("n=%d,one-block,restart-interval-1", n)})
 	}
 }
 
